@@ -33,7 +33,8 @@ def run_mode(cfg, data, chunks, rec=None, on_read=None, interrupt_at=None, scrip
     rec = rec or rig.Recorder()
     if cfg['mode'] == 'run':
         shim = runshim.RunShim(data, cfg.get('writes') or chunks, cfg.get('cap', 65536), cfg.get('status', 0),
-                               cfg.get('sched_seed', 0), cfg.get('environ') or BASE_ENV, rec, on_read=on_read)
+                               cfg.get('sched_seed', 0), cfg.get('environ') or BASE_ENV, rec, on_read=on_read,
+                               script=cfg.get('baton_script'))
         if shim_out is not None:
             shim_out.append(shim)
         res = rig.run_main(argv, b'', [1], script=script, rec=rec, run_shim=shim, capture=capture)
